@@ -197,7 +197,7 @@ impl Corpus for Basic {
     }
 
     fn exhaustive_scripts(thorough: bool) -> Vec<Self::Script> {
-        int_scripts(max_n("basic", thorough, 3, 4))
+        int_scripts(max_n("basic", thorough, 4, 4))
     }
 
     fn random_script(r: &mut Rng) -> Self::Script {
@@ -407,7 +407,7 @@ impl Corpus for Atomic {
     }
 
     fn exhaustive_scripts(thorough: bool) -> Vec<Self::Script> {
-        int_scripts(max_n("atomic", thorough, 3, 4))
+        int_scripts(max_n("atomic", thorough, 4, 4))
     }
 
     fn random_script(r: &mut Rng) -> Self::Script {
@@ -510,8 +510,12 @@ impl Corpus for Keyed {
         let max_n = max_n("keyed", thorough, 3, 4);
         let mut v = vec![];
         for n in 1..=max_n {
-            // key assignments over {0,1}, first key fixed to 0 (symmetry)
+            // key assignments over {0,1}, first key fixed to 0 (symmetry); for n = 4 (about 5*10^5 executions per
+            // script) only the two most mixed assignments
             for mask in 0..(1u32 << (n - 1)) {
+                if n == 4 && mask != 0b101 && mask != 0b011 {
+                    continue;
+                }
                 let items: Vec<(i64, i64)> = (0..n)
                     .map(|i| {
                         let key = if i == 0 { 0 } else { ((mask >> (i - 1)) & 1) as i64 };
@@ -641,7 +645,7 @@ impl Corpus for Buffer {
 
     fn exhaustive_scripts(thorough: bool) -> Vec<Self::Script> {
         let mut v: Vec<Self::Script> = vec![];
-        let max_total = max_n("buffer", thorough, 3, 4);
+        let max_total = max_n("buffer", thorough, 4, 4);
         for np in 1..=3usize {
             for leaders in [vec![], vec![7], vec![7, 9], vec![9, 7]] {
                 if np + leaders.len() > max_total {
@@ -699,6 +703,7 @@ fn fold(rep: &mut Reporter, e: Explored, name: &str, want_exhaustive: bool) {
 }
 
 pub fn run() {
+    println!();
     let args = Args::from_env();
     if args.prop == "NONE" {
         return;
@@ -717,7 +722,7 @@ pub fn run() {
         return;
     }
     let thorough = args.tier == Tier::Thorough;
-    let budget = args.budget(1500, 40_000, 20);
+    let budget = args.budget(20_000, 400_000, 20);
     let t0 = std::time::Instant::now();
     fold(&mut rep, explore::<Basic>("C31", TEST, args.seed, thorough, budget), "basic", true);
     fold(&mut rep, explore::<Atomic>("C31", TEST, args.seed, thorough, budget), "atomic", true);
@@ -730,9 +735,15 @@ pub fn run() {
     }
     rep.extra("seconds", json!(t0.elapsed().as_secs_f64()));
     for f in flows_run {
+        // the atomic flow leaves the simulator few choices (its exhaustive space is small by construction)
+        let want = match f {
+            "atomic" => 20,
+            "buffer" => 100,
+            _ => 500,
+        };
         rep.require(
-            rep.counter(&format!("{f}_exhaustive_executions")) >= 50,
-            &format!("flow {f}: fewer than 50 exhaustive executions"),
+            rep.counter(&format!("{f}_exhaustive_executions")) >= want,
+            &format!("flow {f}: fewer than {want} exhaustive executions"),
         );
         rep.require(
             rep.counter(&format!("{f}_nontrivial_executions")) >= 50,
